@@ -109,6 +109,11 @@ package main
 //@   loop 1: invariant dataOK(result)
 //@   loop 2: invariant dataOK(result)
 //@   loop 3: invariant dataOK(result) && p != nil
+// A report is identified by its X, exactly: the ID under which its counts are
+// filed converts back to the report's X without loss (two reports with different
+// X are two IDs).
+//@   at call writeCount#1: assert same(float64(arg5), r.X) && arg1 == week && arg2 == program
+//@   at call writeCount#5: assert same(float64(arg5), r.X) && arg1 == week && arg2 == program
 //@   modifies maps(weekName, map[programName]map[graphName]map[bucketName]map[reportID]int64), maps(programName, map[graphName]map[bucketName]map[reportID]int64), maps(graphName, map[bucketName]map[reportID]int64), maps(bucketName, map[reportID]int64), maps(reportID, int64)
 
 // A data value is well formed when no nested map that is present is nil.
